@@ -119,14 +119,21 @@ class Collector:
             raise RuntimeError("callback failure injected by the harness")
 
 
-async def _run_bridge_sequence(nports: int, arrivals: List[Tuple[int, str]], fail_on) -> Tuple[str, List[str]]:
+def default_ports() -> List[int]:
+    """the ports a SwitcherBridge listens on when none are given (the protocol's well-known broadcast ports)"""
+    import inspect
+    from aioswitcher.bridge import SwitcherBridge
+    return list(inspect.signature(SwitcherBridge.__init__).parameters["broadcast_ports"].default)
+
+
+async def _run_bridge_sequence(nports: int, arrivals: List[Tuple[int, str]], fail_on, wellknown=False) -> Tuple[str, List[str]]:
     """arrivals: (port index, datagram hex).  One datagram in flight at a time per test step: after each
     datagram a sentinel on the same port is the delivery barrier (UDP on loopback keeps per-socket order)."""
     from aioswitcher.bridge import SwitcherBridge
     loop = asyncio.get_running_loop()
     loop_errors: List[str] = []
     loop.set_exception_handler(lambda l, ctx: loop_errors.append(type(ctx.get("exception")).__name__))
-    ports = free_udp_ports(nports)
+    ports = default_ports() if wellknown else free_udp_ports(nports)
     col = Collector(fail_on)
     per_port: Dict[int, List[str]] = {}
 
@@ -138,7 +145,7 @@ async def _run_bridge_sequence(nports: int, arrivals: List[Tuple[int, str]], fai
             if len(col.calls) > n_before:
                 per_port.setdefault(cb.current_port, []).append(col.calls[-1][1])
     cb.current_port = -1
-    bridge = SwitcherBridge(cb, ports)
+    bridge = SwitcherBridge(cb) if wellknown else SwitcherBridge(cb, ports)
     tx = socket.socket(socket.AF_INET, socket.SOCK_DGRAM)
     order: List[Tuple[int, str]] = []
     with warnings.catch_warnings(record=True):
@@ -169,8 +176,11 @@ async def _run_bridge_sequence(nports: int, arrivals: List[Tuple[int, str]], fai
     return shown, loop_errors
 
 
-def run_bridge_sequence(nports: int, arrivals, fail_on=()) -> str:
-    if LOST >= 3:
+GIVE_UP_AFTER = 3  # lost barriers after which further sequences are not attempted (set to a large number while shrinking a failure)
+
+
+def run_bridge_sequence(nports: int, arrivals, fail_on=(), wellknown=False) -> str:
+    if LOST >= GIVE_UP_AFTER:
         return "0 NOT-RUN(the bridge lost deliveries in 3 earlier sequences)"
-    shown, errs = H.loop().run_until_complete(_run_bridge_sequence(nports, arrivals, fail_on))
+    shown, errs = H.loop().run_until_complete(_run_bridge_sequence(nports, arrivals, fail_on, wellknown))
     return shown
